@@ -34,12 +34,18 @@ fn is_bool_var(m: &Model, n: &str) -> bool {
 
 /// does some and/or node collapse (by `simplify`) to a single operand that is not a 0/1 expression?
 fn collapses_nonbinary(e: &Exp, m: &Model) -> bool {
+    collapses_nonbinary_with(e, &|n| is_bool_var(m, n))
+}
+
+/// the same with the Boolean marking as a parameter (ported as `Exp.collapsesNonbinary` in lean/Rooc/ExpShape.lean;
+/// C10 diffs the two on every generated tree with `is_bool = |_| false`).
+pub fn collapses_nonbinary_with(e: &Exp, is_bool: &dyn Fn(&str) -> bool) -> bool {
     use rooc::BinOp;
     let here = match e {
         Exp::And(_) | Exp::Or(_) | Exp::BinOp(BinOp::And, _, _) | Exp::BinOp(BinOp::Or, _, _) => {
             match e.simplify() {
                 Exp::And(_) | Exp::Or(_) | Exp::Number(_) | Exp::Not(_) | Exp::Xor(_, _) | Exp::Implies(_, _) | Exp::Iff(_, _) => false,
-                Exp::Variable(n) => !is_bool_var(m, &n),
+                Exp::Variable(n) => !is_bool(&n),
                 _ => true,
             }
         }
@@ -47,9 +53,9 @@ fn collapses_nonbinary(e: &Exp, m: &Model) -> bool {
     };
     here || match e {
         Exp::Number(_) | Exp::Variable(_) => false,
-        Exp::Abs(e) | Exp::Not(e) | Exp::UnOp(_, e) => collapses_nonbinary(e, m),
-        Exp::Min(es) | Exp::Max(es) | Exp::And(es) | Exp::Or(es) => es.iter().any(|e| collapses_nonbinary(e, m)),
-        Exp::Xor(a, b) | Exp::Implies(a, b) | Exp::Iff(a, b) | Exp::BinOp(_, a, b) => collapses_nonbinary(a, m) || collapses_nonbinary(b, m),
+        Exp::Abs(e) | Exp::Not(e) | Exp::UnOp(_, e) => collapses_nonbinary_with(e, is_bool),
+        Exp::Min(es) | Exp::Max(es) | Exp::And(es) | Exp::Or(es) => es.iter().any(|e| collapses_nonbinary_with(e, is_bool)),
+        Exp::Xor(a, b) | Exp::Implies(a, b) | Exp::Iff(a, b) | Exp::BinOp(_, a, b) => collapses_nonbinary_with(a, is_bool) || collapses_nonbinary_with(b, is_bool),
     }
 }
 
